@@ -66,7 +66,7 @@ REQUIRE = {
 EPS64 = c06.EPS64
 LD = np.longdouble
 WIDTH = c06.WIDTH
-K_DOT, K_ACC, K_W, K_SUM, K_SUM_KAPPA, K_M1 = 4, 16, c06.K_W, c06.K_SUM, c06.K_SUM_KAPPA, c06.K_M1
+K_DOT, K_ACC, K_W, K_SUM, K_SUM_KAPPA, K_M1 = 4, 32, 2 * c06.K_W, c06.K_SUM, c06.K_SUM_KAPPA, c06.K_M1
 
 # subsets / supersets of C06's pool (same (dx, N) -> shared numba cache); 3-D compiles ~25 s per entry cold
 POOL = {
@@ -78,6 +78,7 @@ POOL = {
         "D": [(10.0, 21, 5), (1.0, 40, 100), (2 * np.pi, 30, 400), (0.5, 16, 20)],
     },
 }
+ONE_THREAD = c06.ONE_THREAD
 MARKER_SETS = ("uniform", "one_cell", "few_cells", "duplicates", "mixed")
 FIELD_KINDS = ("noise", "big", "small", "smooth", "spikes", "checker", "int")
 
@@ -89,7 +90,7 @@ def shards(tier, seed):
         for d in (3, 2):
             for dt in ("float32", "float64"):
                 for k in ib.KERNELS:
-                    out.append({"name": f"{d}d-{dt}-{k}-{v}", "dim": d, "dtype": dt, "kernel": k, "variant": v})
+                    out.append({"name": f"{d}d-{dt}-{k}-{v}", "dim": d, "dtype": dt, "kernel": k, "variant": v, "env": ONE_THREAD})
     return out
 
 
@@ -166,9 +167,9 @@ def run_shard(sh, rec):
             rec.case(None)
             continue
         if tier == "quick":
-            nb = 10 if N >= 128 else 15
+            nb = 30 if N >= 128 else 50
         else:
-            nb = 40 if N >= 128 else 80
+            nb = 150 if N >= 128 else 300
         off = int(rng.integers(len(MARKER_SETS)))
         for b in range(nb):
             kind = MARKER_SETS[(b + off) % len(MARKER_SETS)]
